@@ -80,6 +80,15 @@ CHECKS = {
         "Error-message prefix with symbolic lines is not decidable (f-strings realise symbolic ints): checked end to end only. D13 is a known finding.",
         "DESIGN.md 3/C10",
     ),
+    "C04": (
+        "model_checking",
+        "CrossHair (z3) path exploration of block trees x declaration-kind rotations x raising-callback index on the real CxxParser with a recording visitor; oracles: skeleton derived from the tree, Dyck/parent/state-kind invariants, independent fold vs SimpleCxxVisitor, exception chaining",
+        "Bounded and exhaustive inside the bound: every block tree up to the stated size, with declaration slots cycling through every callback kind, and for each of them every callback position at which a visitor may raise (and no fault), "
+        "is run through the real parser; 'Confirmed over all paths' per shard means z3 showed every unexplored branch of the choice tree infeasible.",
+        "Bound: <=2 blocks depth 2 (quick) / <=3 blocks depth 3 (thorough), 7 block spellings, 18 payload rotations. The parser runs concretely per path. State kinds are read from typing.get_type_hints(CxxVisitor). "
+        "Trusted: CrossHair, z3, the skeleton and fold oracles (vf/blocks.py, vf/props/c04.py).",
+        "DESIGN.md 3/C04",
+    ),
 }
 
 NOT_YET = "no check landed yet in this build (planned engine and bounds: DESIGN.md section 3); not claimed until the check runs green"
